@@ -124,8 +124,8 @@ ZeroOut == [cnt |-> 0, par |-> <<"zero">>, key |-> <<"none">>]
 UseImpl(S, attr, via) ==
   LET S0 == [S EXCEPT !.out = ZeroOut] IN
   IF via = "plain" THEN ModuleCall(S0, attr, cfg.streams, <<>>, cfg.mut)
-  ELSE LET fork == IF via = "jit" THEN [s \in cfg.streams |-> KeyId(s, <<>>, Cnt(S.ctr, <<>>, s) + 1)] ELSE <<>>
-           cIn == IF via = "jit" THEN BumpAll(S.ctr, <<>>, cfg.streams) ELSE S.ctr
+  ELSE LET fork == IF via \in {"jit", "jit_f"} THEN [s \in cfg.streams |-> KeyId(s, <<>>, Cnt(S.ctr, <<>>, s) + 1)] ELSE <<>>
+           cIn == IF via \in {"jit", "jit_f"} THEN BumpAll(S.ctr, <<>>, cfg.streams) ELSE S.ctr
            inner == [S0 EXCEPT !.ctr = cIn]                                   \* copy of the variables, shared counters
            streamsIn == IF IsWhile(via) /\ phase = "apply" THEN {} ELSE cfg.streams      \* while_loop: no stream is split into the loop
            k == IF phase = "init" THEN 1 ELSE Trips(via)                        \* init cannot run inside while_loop: one plain use instead
